@@ -310,7 +310,9 @@ let tchange_str = function
   | TMod (p, f, t) -> Printf.sprintf "(mod %d %d %d)" (int_of_z p) (int_of_z f) (int_of_z t)
 
 let pl_case id c =
-  let size = z (3600 * int_of_sx (List.hd (args (field "size" c)))) in   (* hours -> seconds *)
+  let size = (match field_opt "ssize" c with
+    | Some f -> z (int_of_sx (List.hd (args f)))                           (* round 4: tick sizes given in seconds *)
+    | None -> z (3600 * int_of_sx (List.hd (args (field "size" c))))) in   (* hours -> seconds *)
   let commits = List.map pl_commit (args (field "commits" c)) in
   let find cid = List.find_opt (fun cm -> int_of_z cm.c_id = cid) commits in
   let ops = args (field "ops" c) and obs = args (field "obs" c) in
